@@ -26,12 +26,19 @@
     C02_sem_forward_frag   THE FORWARD HALF (clauses 1 and 3 of `C02_ObsSame`: every finished Fun run —
                            a result or an arithmetic fault — is matched by a Core run with the same trace
                            and the same outcome; every Fun trace is a prefix of a Core trace) for ALL
-                           programs of the fragment `Fun2Core.Sem.fragOk`, all arguments, all fuel:
+                           programs of the fragment `Fun2Core.Sem.fragOk` (Scc/Fun2Core/SemFrag.lean),
+                           all arguments, all fuel:
                              first-order integers (literals, variables, operators incl. `/ %` and their
                              faults, `let`, `if`, calls, `print`, `exit`, parentheses),
                              data (constructors and `case`, incl. the lifting of shared continuations
                              by `share` and the capture guard of `let`/`case`),
-                             labels / `goto` / covariable parameters and arguments.
+                             labels / `goto` / covariable parameters and arguments,
+                             codata, restricted: `new` (closures), codata-typed `let` of a variable
+                             or a `new`, codata-typed arguments (variables / `new`) of calls,
+                             constructors and destructors, destructor calls whose scrutinee is a
+                             variable or a `new`; every term in evaluation position (bodies,
+                             branches, bound terms of other `let`s, scrutinees of `case`) has an
+                             integer or data type.
                            By a simulation between CEK states and Core machine states
                            (Scc/Fun2Core/Sem*.lean: a Fun frame corresponds to a `μ~`-closure / `case`
                            consumer value, a Fun continuation value to a Core consumer value).
@@ -41,8 +48,14 @@
     C02_sem_statement_as_given_false   ¬ C02_sem_statement_as_given (witness: a tail call of `main`,
                            `def main(n){ if n == 0 {0} else {main(n - 1)} }` on the argument 1).
   NOT PROVED (precise obstacles)
-    * codata (`new`, destructor calls, codata-typed `let`): outside `fragOk`.  The relation and the
-      machinery are set up for it (consumer values `dtor`, by-name bindings), the cases are not done.
+    * codata beyond the restriction above: destructor calls on a call / destructor chain
+      (`mk(n).apply(4)`, `s.tail.tail.head`), definitions / destructors / `if` / `case` that RETURN
+      codata.  There the Core machine evaluates the arguments of the destructor BEFORE the scrutinee
+      is run (and suspends `μ`s as thunks when a continuation is shared); relating this to the Fun
+      machine needs that pure argument terms cannot get stuck, i.e. (kind-level) type safety of the
+      Fun machine, which is not available.  (On the repository's corpus: 106 of the 121 sequenced
+      programs with a valid `main` are in `fragOk`; 14 of the other 15 are of this kind, 1 calls
+      `main`.)
     * the BACKWARD half (clauses 2 and 4: a finished Core run is matched by a Fun run): follows from the
       forward simulation and determinism ONLY IF the Fun machine never gets stuck for a reason other
       than an arithmetic fault on checked programs (type safety of the CEK machine w.r.t. the checker,
@@ -182,7 +195,7 @@ theorem C02_sem_forward_link (p : Fun.Program) (p' : Fun.CheckedProgram) (q2 : C
 theorem C02_fragOk_sequenced {p' : Fun.CheckedProgram} (h : Fun2Core.Sem.fragOk p' = true) :
     Fun.Sequenced p' = true ∧ Fun.noMainCall p' = true ∧ C02_noSigmaNames p' = true := by
   simp only [Fun2Core.Sem.fragOk, Bool.and_eq_true] at h
-  obtain ⟨⟨⟨⟨⟨h1, h2⟩, _⟩, h4⟩, _⟩, _⟩ := h
+  obtain ⟨⟨⟨⟨h1, h2⟩, h4⟩, _⟩, _⟩ := h
   refine ⟨h1, h2, ?_⟩
   simp only [C02_noSigmaNames, List.all_eq_true, Bool.and_eq_true] at h4 ⊢
   intro d hd
@@ -225,6 +238,31 @@ def C02Sem_exCheck (src : String) : Bool :=
 
 set_option maxRecDepth 100000 in
 theorem C02Sem_example : C02Sem_exCheck C02Sem_exSrc = true := by decide +kernel
+
+/-- a closure applied twice: codata by name = by value on variables and `new` -/
+def C02Sem_exSrc2 : String :=
+  "codata Fun[A, B] { apply(x : A) : B }
+   def twice(f : Fun[i64, i64], v : i64) : i64 { let a : i64 = f.apply[i64, i64](v); f.apply[i64, i64](a) }
+   def main(n : i64) : i64 {
+     let k : i64 = n * 2;
+     let f : Fun[i64, i64] = new { apply(x) => x + k };
+     println_i64(twice(f, 1));
+     0 }"
+
+def C02Sem_exCheck2 (src : String) : Bool :=
+  match frontEnd src with
+  | .ok _ p' =>
+    Fun2Core.Sem.fragOk p' &&
+    match Fun2Core.compileProg p' with
+    | .ok q =>
+      Fun2Core.Sem.coreClosed q &&
+      decide (ofFun (Fun.run p' [5] 200) = ⟨[(true, 21)], .done 0⟩) &&
+      decide (ofCore (Core.run q [5] 200) = ⟨[(true, 21)], .done 0⟩)
+    | .error _ => false
+  | _ => false
+
+set_option maxRecDepth 100000 in
+theorem C02Sem_example2 : C02Sem_exCheck2 C02Sem_exSrc2 = true := by decide +kernel
 
 /-! ## the statement as first given is false: a program that calls `main` (finding D13) -/
 
@@ -324,6 +362,7 @@ theorem C02_sem_statement_as_given_false : ¬ C02_sem_statement_as_given := by
 #print axioms C02_sem_forward_link
 #print axioms C02_fragOk_sequenced
 #print axioms C02Sem_example
+#print axioms C02Sem_example2
 #print axioms C02_sem_statement_as_given_false
 
 end Scc.Props
